@@ -75,13 +75,13 @@ type Driver struct {
 	Cfg DriverCfg
 	ctx context.Context
 
-	real      map[string]string // bucket|key|modelVersion -> real version id
-	uploads   map[string]storage.UploadId
+	real         map[string]string // bucket|key|modelVersion -> real version id
+	uploads      map[string]storage.UploadId
 	lastPartBody map[string][]byte
-	lastMod   map[string]time.Time // bucket|key|modelVersion|writeSeq -> first observed Last-Modified
-	wasLatest map[string]bool
-	opN       int
-	Mutations int
+	lastMod      map[string]time.Time // bucket|key|modelVersion|writeSeq -> first observed Last-Modified
+	wasLatest    map[string]bool
+	opN          int
+	Mutations    int
 	// Think is slept before every op (distinct timestamps, lets workers run).
 	Think func() time.Duration
 	// AfterOp, when set, runs after every executed operation.
